@@ -668,6 +668,38 @@ impl BinArchive {
         self.pointers.values().copied().collect()
     }
 
+    /// Verification hook (feature `verif-hooks`, off by default): sorted copies of
+    /// every internal table, including pending c-strings and annotations that the
+    /// positional accessors cannot reach (e.g. beyond the end of the data).
+    #[cfg(feature = "verif-hooks")]
+    #[allow(clippy::type_complexity)]
+    pub fn verif_snapshot(
+        &self,
+    ) -> (
+        Vec<u8>,
+        Vec<(usize, String)>,
+        Vec<(usize, usize)>,
+        Vec<(usize, Vec<String>)>,
+        Vec<(String, Vec<usize>)>,
+    ) {
+        let mut text: Vec<(usize, String)> =
+            self.text.iter().map(|(k, v)| (*k, v.clone())).collect();
+        text.sort();
+        let mut pointers: Vec<(usize, usize)> =
+            self.pointers.iter().map(|(k, v)| (*k, *v)).collect();
+        pointers.sort();
+        let mut labels: Vec<(usize, Vec<String>)> =
+            self.labels.iter().map(|(k, v)| (*k, v.clone())).collect();
+        labels.sort();
+        let mut cstrings: Vec<(String, Vec<usize>)> = self
+            .cstrings
+            .iter()
+            .map(|(k, v)| (k.clone(), v.clone()))
+            .collect();
+        cstrings.sort();
+        (self.data.clone(), text, pointers, labels, cstrings)
+    }
+
     pub fn all_labels(&self) -> Vec<(usize, String)> {
         let mut result: Vec<(usize, String)> = Vec::new();
         for (k, v) in &self.labels {
